@@ -244,6 +244,27 @@ def other_observations(tier):
                             '_vec': {'kind': kind, 'route': 'cli --version 7', 'opts': sorted(kw)}})
             finally:
                 shutil.rmtree(tmp, ignore_errors=True)
+    # the command line spells "no colour" as transparent / trans
+    for kind in ('png', 'svg', 'xpm', 'pam'):
+        for flags, kw in ((['--light', 'transparent'], {'light': None}), (['--light', 'trans', '--dark', 'darkred'], {'light': None, 'dark': 'darkred'}),
+                          (['--quiet-zone', 'transparent'], {'quiet_zone': None}), (['--dark', 'transparent'], {'dark': None})):
+            if kind in ('xpm', 'pam') and ('quiet_zone' in kw or kw.get('dark', 1) is None):
+                continue
+            tmp = tempfile.mkdtemp(prefix='c12t_', dir=work)
+            try:
+                pth = os.path.join(tmp, 'out.' + kind)
+                status, out, err, tb = run_cli(flags + ['--output', pth, CONTENT])
+                ok = status == 0 and os.path.exists(pth)
+                got = digest(normalise(kind, open(pth, 'rb').read())) if ok else failure(RuntimeError(str(status) + err[:80]))
+                try:
+                    ref = digest(normalise(kind, save_stream(qr, kind, kw)))
+                except Exception as e:  # noqa
+                    ref = failure(e)
+                obs.append({'family': 'route', 'kind': kind, 'route': 'cli', 'opts': sorted(kw), 'ref_given': sorted(kw), 'ref_forced': [], 'prefix_ok': True,
+                            'exit': status if isinstance(status, int) else 99, 'got': got if ref['status'] == 'ok' or ok else {'status': ref['status'], 'sha': '', 'len': 0},
+                            'ref': ref, '_vec': {'kind': kind, 'route': 'cli ' + ' '.join(flags), 'opts': sorted(kw)}})
+            finally:
+                shutil.rmtree(tmp, ignore_errors=True)
     # data URIs of SVG documents whose texts / attributes contain quote characters
     for extra in ({'title': 'say "hi"'}, {'title': 'a="b" c'}, {'desc': "it's"}, {'svgclass': "it's"}, {'svgid': 'x'}):
         vec = {'kind': 'svg', 'route': 'data_uri', 'opts': [], 'given': [], 'forced': ['xmldecl_false', 'nl_false']}
